@@ -23,7 +23,7 @@ def sh(cmd, cwd=None, env=None, timeout=1800):
     return r.returncode, r.stdout + r.stderr
 
 
-def ingest(prop, outdir=None, worktree=None):
+def ingest(prop, outdir=None, worktree=None, tag="s"):
     outdir = outdir or "/tmp/seed_out_%s" % prop
     worktree = worktree or "/tmp/seed_%s" % prop
     env = {"PYTHONPATH": worktree + "/src"}
@@ -33,7 +33,7 @@ def ingest(prop, outdir=None, worktree=None):
         demo = os.path.join(outdir, "demo_%d.py" % i)
         if not (os.path.exists(patch) and os.path.exists(demo)):
             continue
-        sid = "%s-%s%d" % (prop, os.path.basename(outdir).replace("seed_out_", "").replace(prop, "").strip("_") or "s", i)
+        sid = "%s-%s%d" % (prop, tag, i)
         rec = {"property": prop, "id": sid}
         rc, out = sh(["git", "-C", worktree, "apply", patch])
         if rc:
